@@ -69,7 +69,16 @@ func (s *StreamRecipe) Build() *Built {
 		r := sim.NewRng(s.Seed)
 		kinds := refenc.RandomLegalKinds(r, r.Weighted([]int{1, 4, 4, 3, 2, 1, 1}))
 		ds := sim.Pick(r, []int64{4096, 4096, 8192, 1 << 16, 1 << 20})
-		cs := refenc.Realise(r, kinds, refenc.SeqOptions{MaxOpsPerChunk: r.Range(1, 80), MaxRaw: r.Range(1, 300), DictSize: ds, BigChunk: s.Big})
+		maxRaw := r.Range(1, 300)
+		if r.Chance(1, 6) {
+			// uncompressed chunks larger than the dictionary (legal: the dictionary
+			// size bounds distances, not chunk sizes)
+			maxRaw = int(ds) * r.Range(1, 4)
+			if maxRaw > 1<<16 {
+				maxRaw = 1 << 16
+			}
+		}
+		cs := refenc.Realise(r, kinds, refenc.SeqOptions{MaxOpsPerChunk: r.Range(1, 80), MaxRaw: maxRaw, DictSize: ds, BigChunk: s.Big})
 		return &Built{Stream: cs.Stream, Content: cs.Content, Format: "lzma2", Dict: ds}
 	case "refenc-far-xz", "refenc-far-alone", "refenc-far-l2":
 		f := refenc.GenFar(sim.NewRng(s.Seed), map[string]string{"refenc-far-xz": "xz", "refenc-far-alone": "lzma", "refenc-far-l2": "lzma2"}[s.Kind])
